@@ -8,13 +8,18 @@ COMMON_ASSUMPTIONS = [
     "bounds are enforced by unwinding assertions: a too-small bound is reported as undecided, never as held",
 ]
 
-GENERATORS = {}
+import gens
+
+GENERATORS = {"probe": gens.gen_probe}
 
 # interim reasons while the framework is being built (kept current with every commit)
 NOT_YET = {}
 
 
 PROPS = {
+    "PROBE": {"level": "model_checking", "claim": "", "note": "", "not_applicable": "internal cost probe",
+              "tiers": {"quick": {"modules": ["g_probe"], "generators": ["probe"], "timeout_s": 300, "mem_gb": 12},
+                        "thorough": {"modules": ["p_probe"], "timeout_s": 100, "mem_gb": 12}}},
     "C19": {
         "level": "model_checking",
         "claim": "Every (Pid, u16) pair is symbolic: the solver shows + / - / += / -= / try_from agree with the cycle 1..=65535 closed form, "
